@@ -91,6 +91,8 @@ def run(prog, rep, tier):
     # ---------------- R19.1 keygen
     kg = one_body(prog, rep, 'R19.1', 'mlar', exact='keygen')
     if kg is not None:
+        from ..inline import inlined_body
+        kg = inlined_body(prog, kg, skip=('generate_keypair', 'apply_derive'))     # the seeded generator may be built by a private helper
         clos = prog.closures_of(kg)
         # the seeded generator is built in the closure handed to map_or_else, or in the Some(seed) arm of a match in keygen itself
         seeded = [(c, b) for c in clos + [kg] for b in c.calls() if b.term.cmethod == 'from_seed' and b.term.ctrait.endswith('SeedableRng')]
